@@ -54,6 +54,12 @@ EXTRA = [
     "SELECT z.a AS a, z.s AS s FROM (SELECT a, sum(g) AS s FROM t GROUP BY a) AS z",
     "SELECT s + 1 AS v FROM (SELECT sum(a) AS s FROM t) AS z",
     "SELECT w.v AS v FROM (SELECT a + g AS v FROM t) AS w WHERE w.v > 0",
+    # the same CTE / alias name at two nesting levels (the inner definition shadows the outer one)
+    "WITH v AS (SELECT a FROM t WHERE a > 5) SELECT s.a AS a FROM (WITH v AS (SELECT a FROM t WHERE a < 3) SELECT a FROM v) AS s",
+    "WITH v AS (SELECT a FROM t WHERE a > 5), z AS (WITH v AS (SELECT a FROM t WHERE a < 3) SELECT a FROM v) SELECT v.a AS x, z.a AS y FROM v CROSS JOIN z",
+    "WITH v AS (SELECT a, g FROM t) SELECT v.a AS a, s.n AS n FROM v JOIN (WITH v AS (SELECT c, count(*) AS n FROM t GROUP BY c) SELECT c, n FROM v) AS s ON v.a = s.c",
+    "SELECT z.a AS a FROM (SELECT a FROM (SELECT a + 1 AS a FROM t) AS z WHERE a > 2) AS z",
+    "WITH t2 AS (SELECT a FROM t WHERE a > 1) SELECT x.a AS a FROM t2 AS x JOIN t2 AS y ON x.a = y.a",
     # joins: ON / USING / NATURAL, chains, qualified and aliased names
     "SELECT id, x FROM t JOIN u USING (id)",
     "SELECT id, t.a AS ta, u.a AS ua FROM t JOIN u USING (id)",
